@@ -414,10 +414,41 @@ def gen_heldleave(rng, sid):
     return s
 
 
+def gen_barrier_hang(rng, sid):
+    """witnesses of the two defects fixed in /repo (fix: FD_ERR cleanup / stop routed through the barrier queue that a
+    pending dispatch_io_barrier keeps suspended): nothing but the library can complete these operations"""
+    s = Scn(sid, 256)
+    s.kind = "pipe_r"
+    s.rbase = 0
+    s.add("fd pipe_r 0 0")
+    s.add("chan")
+    if sid % 2 == 0:
+        # write on a descriptor not open for writing: EBADF, with a barrier pending behind it
+        woff = rng.range(0, 1 << 20)
+        for k in range(rng.choice([1, 2])):
+            sz = rng.range(1, 2000)
+            s.op(True, sz, frags=[sz], woff=woff)
+            woff += sz
+        s.barrier(0)
+        if rng.chance(1, 2):
+            s.op(False, rng.range(1, 50))
+    else:
+        # a read blocked on a silent pipe, a barrier behind it, then dispatch_io_close(DISPATCH_IO_STOP)
+        s.op(False, rng.range(1, 500))
+        if rng.chance(1, 2):
+            s.op(False, rng.range(1, 500))
+        s.barrier(0)
+        s.add("sleep %d" % rng.choice([2000, 20000]))
+        s.close(True)
+    s.add("end")
+    return s
+
+
 def scenarios(ctx):
     rng = ctx.rng
     n = 100 if ctx.tier == "quick" else 1200
-    out = [gen_ebadf(rng, 100000 + k) for k in range(6)] + [gen_heldleave(rng, 100100 + k) for k in range(3)]
+    out = [gen_ebadf(rng, 100000 + k) for k in range(6)] + [gen_heldleave(rng, 100100 + k) for k in range(3)] + \
+          [gen_barrier_hang(rng, 100200 + k) for k in range(4)]
     for i in range(n):
         r = i % 10
         big = (i % 37 == 5)
